@@ -469,7 +469,7 @@ long vh_mmap_calls, vh_munmap_calls, vh_mmap_live, vh_mmap_capped;
 size_t vh_mmap_live_bytes, vh_mmap_peak;
 long vh_fail_at[2];
 long vh_req_count;
-int vh_seam_armed;
+volatile int vh_seam_armed;
 char vh_req_log[256];
 vh_release_cb vh_on_release;
 struct vh_blk vh_ledger[512];
